@@ -521,6 +521,13 @@ def replay(ctx, data):
         print(json.dumps(dict(verdict=v, impl_output=o), indent=1, default=str))
     else:
         (v, o, note), = judge_cycles(ctx, [inp], "replay")
-        print(json.dumps(dict(verdict=v, meaning=(describe(v) if v and v[0] in (2, 3) else note or "agree"),
+        if v and v[0] in (2, 3):
+            meaning = describe(v)
+        elif v and v[0] == 1:
+            meaning = ("skipped: clause %s is false at a state where the library violates hypothesis instance %s" % (CLAUSE.get(v[2], v[2]), HYP.get(v[1], v[1]))
+                       if len(v) > 2 else "fragile: a profile step within 1e-9 of the phase-change window")
+        else:
+            meaning = note or "agree"
+        print(json.dumps(dict(verdict=v, meaning=meaning,
                               kind=(kind_of(v) if v and v[0] in (2, 3) else None), impl_output=public(o) if isinstance(o, dict) else o),
                          indent=1, default=str))
